@@ -24,6 +24,7 @@ EXPLANATION = (
     "'closed connection'. Not "
     "decided: behaviour under real inter-chunk delays (C08) and kernel semantics."
     ' Second session: what the decoder is handed is computed by a small dataflow over the receive buffer (must be exactly recv(6) followed by recv(pdu_length)); header fields are extracted semantically (struct.unpack / int.from_bytes / index spellings); the connect() timeout typestate is path-sensitive over pure local tests (sock_model.ConnectModel).'
+    " Fourth session: (tls-portable) no flags argument on reads / writes of a socket that may be an SSLSocket; (ready-probe) once select() reports the socket readable `ready` never answers False; socket reads are counted per path through the loop; the length model names reads by their order on the path so branches can be joined; (gap-tolerant) borrows C08's wait rules."
 )
 
 
